@@ -18,6 +18,7 @@ import os
 import random
 import re
 import shutil
+import subprocess
 import sys
 import tempfile
 import threading
@@ -915,11 +916,12 @@ def run(ctx: Ctx) -> Outcome:
     wdescs = [{"n": 8, "vcr_delay": 0.012, "har_delay": 0.15}] if ctx.quick else \
         [{"n": 8, "vcr_delay": 0.012, "har_delay": 0.15}, {"n": 3, "vcr_delay": 0.03, "har_delay": 0.4},
          {"n": 16, "vcr_delay": 0.006, "har_delay": 0.08}, {"n": 2, "vcr_delay": 0.0, "har_delay": 0.0}]
-    # a separate process, forked while this one is still single-threaded (the slow runs take seconds of wall time but no CPU)
-    import multiprocessing as mp
-
-    wpool = mp.get_context("fork").Pool(1)
-    wasync = wpool.map_async(writer_run, wdescs)
+    # a separate process (the slow runs take seconds of wall time but no CPU; this process must stay single-threaded for pmap's fork)
+    wproc = subprocess.Popen([sys.executable, "-c", "import sys, json; from harness import c16; "
+                              "print(json.dumps([t for d in json.load(sys.stdin) for t in c16.writer_run(d)]))"],
+                             stdin=subprocess.PIPE, stdout=subprocess.PIPE, stderr=subprocess.PIPE, text=True, cwd=common.ROOT)
+    wproc.stdin.write(json.dumps(wdescs))
+    wproc.stdin.close()
     res_w = tlc.require_ok(tlc.run_tlc("ReportsWriter", "ReportsWriter.cfg", workers=4, timeout=600), "ReportsWriter model")
     for inv in res_w.violated:
         out.violations.append(Violation("C16:spec:" + inv, "property %s violated in ReportsWriter.tla" % inv,
@@ -1009,8 +1011,10 @@ def run(ctx: Ctx) -> Outcome:
             out.violations.append(Violation(sig, "%s of %r placed in %s (preserve_bytes=%s, sanitize=%s): %s" % (
                 comp, "".join(map(chr, s)), field, preserve, sanitize, tg), {"kind": "string", "case": c}))
 
-    wtraces = [t for ts in wasync.get(timeout=1800) for t in ts]
-    wpool.close()
+    wout = wproc.stdout.read()
+    if wproc.wait(timeout=1800) != 0:
+        raise RuntimeError("writer runs failed: " + wproc.stderr.read()[-2000:])
+    wtraces = json.loads(wout.strip().splitlines()[-1])
     wverdicts, states_w = judge_writer(ctx, wtraces)
     out.violations.extend(writer_violations(wtraces, wverdicts))
 
